@@ -242,6 +242,21 @@ func (g *Gen) Xform(md protoreflect.MessageDescriptor, b []byte, depth int) []by
 			out = append(out, r)
 			continue
 		}
+		if !fd.IsList() && !fd.IsMap() && fd.Message() == nil && g.R.Intn(100) < 20 {
+			// an explicitly encoded DEFAULT value of the same singular field in front (non-canonical
+			// but valid: the later occurrence wins) -- empty string / bytes, zero number
+			var x []byte
+			x = g.tag(x, r.num, elemWireType(fd.Kind()))
+			switch elemWireType(fd.Kind()) {
+			case protowire.VarintType, protowire.BytesType:
+				x = append(x, 0)
+			case protowire.Fixed32Type:
+				x = append(x, 0, 0, 0, 0)
+			case protowire.Fixed64Type:
+				x = append(x, 0, 0, 0, 0, 0, 0, 0, 0)
+			}
+			out = append(out, rec{num: r.num, typ: elemWireType(fd.Kind()), raw: x})
+		}
 		switch {
 		case fd.IsMap() && r.typ == protowire.BytesType:
 			if g.R.Intn(100) < 60 {
